@@ -526,7 +526,7 @@ def list_method(it, lst, name, node):
 
 
 def dict_get(it, d, k, default=None, node=None):
-    if isinstance(k, (SInt, SStr, SEnum, SOpt)):
+    if isinstance(k, (SInt, SStr, SEnum, SOpt)) or type(k).__name__ == 'FBytes':
         # symbolic key over concrete keys: chain of ites
         res = default
         for kk in reversed(d.keys()):
@@ -547,7 +547,7 @@ def dict_get(it, d, k, default=None, node=None):
 
 
 def dict_getitem(it, d, k, node=None):
-    if isinstance(k, (SInt, SStr, SEnum, SOpt)):
+    if isinstance(k, (SInt, SStr, SEnum, SOpt)) or type(k).__name__ == 'FBytes':
         conds = []
         for kk in d.keys():
             e = values_equal(it, kk, k, node)
@@ -968,6 +968,10 @@ def _slice_bounds(n, lo, hi, st):
 
 
 def getslice(it, obj, lo, hi, st, node=None):
+    if type(obj).__name__ == 'FBytes':
+        if st is not None:
+            raise Unsupported('step slice of a file slice')
+        return obj.slice(it, lo, hi)
     conc = all(x is None or isinstance(x, int) for x in (lo, hi, st))
     if isinstance(obj, SymList):
         if st is not None:
